@@ -17,7 +17,7 @@ TYPES = ["clientHelloMsg", "serverHelloMsg", "encryptedExtensionsMsg", "endOfEar
          "clientKeyExchangeMsg", "finishedMsg", "certificateRequestMsg_12", "certificateRequestMsg_10",
          "certificateVerifyMsg_12", "certificateVerifyMsg_10", "newSessionTicketMsg", "sessionState",
          "sessionStateTLS13"]
-EXPECT_NOT_PF = {"clientHelloMsg", "serverHelloMsg", "serverKeyExchangeMsg", "clientKeyExchangeMsg", "finishedMsg"}
+EXPECT_NOT_PF = {"clientHelloMsg", "serverHelloMsg"}     # the types with an optional tail
 
 
 def tla_set(items):
